@@ -57,7 +57,8 @@ def rule_R12_2(ctx):
                    "different properties for some operation")
     # functions switching on a RawExpr parameter: the evaluator and the binder
     pairs = []
-    for f in prog.hand_fns():
+    import c11
+    for f in c11.owner_fns(prog):
         if f.is_closure or f.from_expansion:
             continue
         sw = ops.arg_rooted_switches(f)
@@ -203,7 +204,8 @@ def run(ctx):
     import c16
     r8 = c16.rule_R16_8(ctx, "R12.8")
     r8.title = ("property names are computed by evaluating the name expression (no answer from its syntax alone)")
-    return [rule_R12_1(ctx), rule_R12_2(ctx), r3, r4, r5, r6, rule_R12_7(ctx), r8]
+    import c11
+    return [rule_R12_1(ctx), c11.with_views(rule_R12_2, ctx), r3, r4, r5, r6, rule_R12_7(ctx), r8]
 
 
 META = {
